@@ -1122,8 +1122,17 @@ def oracle_c16(plan, world, cl, obs, mon):
 
     def no_effect(c):
         b, a = c["coord_before"], c["coord_after"]
-        strip = lambda x: None if x is None else (x[0], x[2], x[3], x[4])  # noqa: E731
-        if strip(b) != strip(a):
+        # (epoch, groups, serial: the partitions of sends accepted *before* this call may still
+        # be on their way to the coordinator while it runs)
+        # ... which also opens the transaction there: Empty -> Ongoing, serial + 1)
+        strip = lambda x: None if x is None else (  # noqa: E731
+            x[0], x[3], (x[1].replace("Prepare", "").replace("Complete", "") + str(x[4]))
+            if x[1].startswith(("Prepare", "Complete")) else "-")
+        sb, sa = strip(b), strip(a)
+        changed = sb != sa
+        if changed and sb is not None and sa is not None and sb[:2] == sa[:2] and sa[2] == "-":
+            changed = False  # re-opened by an AddPartitionsToTxn of an earlier, accepted send
+        if changed:
             viol("out_of_order_call_changed_coordinator_state", c, before=repr(b), after=repr(a))
         wr = [api for (s, cid, api) in mon.writes
               if c["seq0"] < s < c["seq1"] and cid == spec["id"]
@@ -1135,6 +1144,7 @@ def oracle_c16(plan, world, cl, obs, mon):
     # as well: otherwise the "new" transaction that follows is the old one continued
     for c in calls:
         if c["op"] in ("commit", "abort", "ctx_ok", "ctx_exc") and c["outcome"] == "ok" \
+                and fc != "fatal" \
                 and c["model_before"]["state"] in ("IN_TXN", "ABORTABLE") \
                 and c["coord_after"] is not None and c["coord_after"][1] == "Ongoing":
             viol("transaction_still_open_at_coordinator_after_end_call", c,
@@ -1212,7 +1222,13 @@ def oracle_c16(plan, world, cl, obs, mon):
             else:
                 no_effect(c)
         else:
-            if c["outcome"] != "ok":
+            if c["outcome"] != "ok" and fc == "retriable" and c["op"].startswith("send") \
+                    and c["exc"] in ("UnknownTopicOrPartitionError", "KafkaTimeoutError"):
+                # documented: send() gives up after request_timeout_ms when it cannot get the
+                # topic's metadata / room in the accumulator (here: its Metadata request queued
+                # behind the request whose reply the fault swallowed)
+                world.probe("send_gave_up_waiting_under_retriable_fault")
+            elif c["outcome"] != "ok":
                 viol("in_order_call_raised", c)
     if fc == "fatal" and fault_seq is not None:
         world.probe("fatal_fault_delivered")
